@@ -1687,3 +1687,312 @@ def rule_G7(ctx):
         else:
             r.neg_control(f["name"], bool(res) and not bad)
     return r
+
+
+# ---------------------------------------------------------------------------------------------------------------------
+# T17  stack discipline: a vector the compiler uses as a stack (both pushed and popped) is read at its top only - `last`, `pop`,
+#      or the entry at an index that was derived from its length (the 'current group' of the parser).  Reading another entry
+#      (`first()`, `[0]`, an iteration) answers for the OUTERMOST open bracket where the innermost is meant: the code agrees with
+#      the right one as long as brackets are not nested.
+_STACK_OK = {"push", "pop", "len", "is_empty", "last", "last_mut", "clear", "with_capacity", "reserve", "extend", "truncate"}
+
+
+def stack_discipline(f):
+    body = Body(f)
+    stacks = {}
+    for n in walk(f["hir"]):
+        if n.get("k") == "MethodCall" and n.get("m") in ("push", "pop") and "Vec<" in (n.get("recv_ty") or ""):
+            rv = peel(n["recv"])
+            while rv.get("k") in ("AddrOf", "Unary"):
+                rv = peel(rv["e"])
+            if rv.get("k") == "Path" and rv.get("res") == "local":
+                stacks.setdefault(rv["lid"], {"name": rv.get("name"), "ops": set()})["ops"].add(n["m"])
+    stacks = {l: s for l, s in stacks.items() if {"push", "pop"} <= s["ops"]}
+    out = []
+    n_access = 0
+    def is_stack(e):
+        e = peel(e)
+        while e.get("k") in ("AddrOf", "Unary"):
+            e = peel(e["e"])
+        return e.get("lid") if e.get("k") == "Path" and e.get("res") == "local" and e.get("lid") in stacks else None
+    def index_from_len(e, lid):
+        orgs = body.origins(e)
+        if not orgs:
+            return False
+        for o in orgs:
+            if o.get("k") == "Lit":
+                continue
+            if o.get("k") == "MethodCall" and o.get("m") == "len" and is_stack(o["recv"]) == lid:
+                continue
+            if o.get("k") == "Path" and (o.get("def") or "").endswith("::None"):
+                continue
+            return False
+        return any(o.get("k") == "MethodCall" and o.get("m") == "len" for o in orgs)
+    for n in walk(f["hir"]):
+        k = n.get("k")
+        if k == "MethodCall":
+            lid = is_stack(n["recv"])
+            if lid is None:
+                continue
+            n_access += 1
+            m = n.get("m")
+            if m in _STACK_OK:
+                continue
+            if m in ("get", "get_mut") and n.get("args") and index_from_len(n["args"][0], lid):
+                continue
+            out.append(("non-top-access:%s:%s" % (stacks[lid]["name"], m), loc(n), stacks[lid]["name"], m))
+        elif k == "Index":
+            lid = is_stack(n.get("e") or n.get("base") or {})
+            if lid is None:
+                continue
+            n_access += 1
+            ix = n.get("idx")
+            if ix is not None and index_from_len(ix, lid):
+                continue
+            out.append(("non-top-access:%s:index" % stacks[lid]["name"], loc(n), stacks[lid]["name"], "[..]"))
+    return out, len(stacks), n_access
+
+
+def rule_T17(ctx):
+    F = ctx.F
+    r = RuleResult("T17", "stack discipline: a vector the parser / builder both pushes and pops is read only at its top or at an index derived from its length - never at a fixed or searched position")
+    n_st = 0
+    for f in sorted(F.fns.values(), key=lambda f: f["path"]):
+        if f["crate"] != "garnish_lang_compiler" or f["kind"] == "Closure":
+            continue
+        fnd, ns, na = stack_discipline(f)
+        if ns:
+            n_st += ns
+            r.examine((f["path"],), True, {"fn": f["path"], "stacks": ns, "accesses": na, "violations": len(fnd)})
+            r.examined += max(na - 1, 0)
+        seen = set()
+        for inst, where, name, m in fnd:
+            if inst in seen:
+                continue
+            seen.add(inst)
+            r.finding(f["path"], inst, where, "`%s` is used as a stack (pushed and popped) but read with `%s` at %s: that is an entry other than the innermost one - with nested brackets the outermost open bracket answers where the enclosing one is meant" % (name, m, where))
+    r.floor("stack-like vectors in the compiler", n_st, 1)
+    for f in F.fns_in("gfixture::round3::t17::"):
+        if f["kind"] == "Closure" or not f.get("name", "").startswith(("ctl_", "ok_")):
+            continue
+        fnd, ns, _na = stack_discipline(f)
+        if f["name"].startswith("ctl_"):
+            r.control(f["name"], bool(fnd))
+        else:
+            r.neg_control(f["name"], ns >= 1 and not fnd)
+    return r
+
+
+# ---------------------------------------------------------------------------------------------------------------------
+# T18  shifted-id consistency in the parser.  An arm of parse() that may insert a synthetic List node in front of the node it
+#      creates computes its own, shifted id (`our_id = current_id; if list { our_id = current_id + 1 }`) and uses it for what
+#      it records about "this node".  Recording the unshifted id (which is then the List node's) in the loop-carried state
+#      contradicts that: the next token is parented to the List node outside the brackets.
+def t18_analyse(f):
+    """returns (findings, number of shifted arms, number of state writes examined)"""
+    top = f["hir"]
+    b = top.get("b") if top.get("k") == "Block" else None
+    if not isinstance(b, dict):
+        return [], 0, 0
+    state = {}
+    for st in b.get("stmts") or []:
+        if st.get("k") == "Let":
+            for x in walk(st.get("pat") or {}):
+                if x.get("k") == "Binding" and "mut" in str(x.get("mode") or "").lower():
+                    state[x["lid"]] = x.get("name")
+    fnd, n_arms, n_writes = [], 0, 0
+    for lp in walk(top):
+        if lp.get("k") != "Loop" or lp.get("src") != "ForLoop":
+            continue
+        # node id of the iteration: `let X = <Vec<ParseNode>>.len()` directly in the loop body
+        ids = {}
+        for n in walk(lp):
+            if n.get("k") == "Let" and n.get("init") is not None:
+                i = peel(n["init"])
+                if i.get("k") == "MethodCall" and i.get("m") == "len" and "ParseNode" in (i.get("recv_ty") or ""):
+                    for x in walk(n.get("pat") or {}):
+                        if x.get("k") == "Binding":
+                            ids[x["lid"]] = x.get("name")
+        if not ids:
+            continue
+        def is_id(e):
+            e = peel(e)
+            return e.get("k") == "Path" and e.get("res") == "local" and e.get("lid") in ids
+        for m in walk(lp):
+            if m.get("k") != "Match" or m.get("src") not in (None, "Normal") or len(m.get("arms", [])) < 8:
+                continue
+            for arm in m["arms"]:
+                # shifted own id: `let mut L = X` ... `L = X + 1` / `L += 1`
+                shifted = {}
+                for n in walk(arm["body"]):
+                    if n.get("k") == "Let" and n.get("init") is not None and is_id(n["init"]):
+                        for x in walk(n.get("pat") or {}):
+                            if x.get("k") == "Binding":
+                                shifted[x["lid"]] = [x.get("name"), False]
+                for n in walk(arm["body"]):
+                    if n.get("k") == "AssignOp" and n.get("op") in ("+=", "+") and peel(n["l"]).get("lid") in shifted:
+                        shifted[peel(n["l"])["lid"]][1] = True
+                    if n.get("k") == "Assign" and peel(n["l"]).get("lid") in shifted:
+                        r_ = peel(n["r"])
+                        if r_.get("k") == "Binary" and r_.get("op") == "+" and (is_id(r_["l"]) or is_id(r_["r"])):
+                            shifted[peel(n["l"])["lid"]][1] = True
+                shifted = {l: v[0] for l, v in shifted.items() if v[1]}
+                if not shifted:
+                    continue
+                n_arms += 1
+                for n in walk(arm["body"]):
+                    if n.get("k") != "Assign":
+                        continue
+                    l_ = peel(n["l"])
+                    if l_.get("k") != "Path" or l_.get("lid") not in state:
+                        continue
+                    r_ = peel(n["r"])
+                    if r_.get("k") == "Call" and (callee(r_) or "").endswith("::Some") and r_.get("args"):
+                        n_writes += 1
+                        if is_id(r_["args"][0]):
+                            fnd.append(("unshifted-id-recorded:%s" % state[l_["lid"]], loc(n), state[l_["lid"]], sorted(shifted.values())[0], ids[peel(r_["args"][0])["lid"]]))
+    return fnd, n_arms, n_writes
+
+
+def rule_T18(ctx):
+    F = ctx.F
+    r = RuleResult("T18", "shifted-id consistency: an arm of parse() that computes a shifted id for the node it creates (a List node may be inserted in front) records that id - not the unshifted one - in the loop-carried parser state")
+    total_arms = 0
+    for f in sorted(F.fns.values(), key=lambda f: f["path"]):
+        if f["crate"] != "garnish_lang_compiler" or "::parse::" not in f["path"] or f["kind"] == "Closure":
+            continue
+        fnd, n_arms, n_writes = t18_analyse(f)
+        if n_arms:
+            total_arms += n_arms
+            r.examine((f["path"],), True, {"fn": f["path"], "arms_with_a_shifted_id": n_arms, "state_writes_examined": n_writes})
+            r.examined += max(n_writes - 1, 0)
+        seen = set()
+        for inst, where, st, sh, idn in fnd:
+            if inst in seen:
+                continue
+            seen.add(inst)
+            r.finding(f["path"], inst, where, "this arm computes its node's id as `%s` (shifted by one when a List node is inserted in front) but records the unshifted `%s` in `%s` at %s: when the List node is inserted that is the List node's id, so what follows is attached outside the bracket / operator it belongs to" % (sh, idn, st, where))
+    r.floor("parser arms that compute a shifted node id", total_arms, 2)
+    for f in F.fns_in("gfixture::round3::t18::"):
+        if f["kind"] == "Closure" or not f.get("name", "").startswith(("ctl_", "ok_")):
+            continue
+        fnd, n_arms, _w = t18_analyse(f)
+        if f["name"].startswith("ctl_"):
+            r.control(f["name"], bool(fnd))
+        else:
+            r.neg_control(f["name"], n_arms >= 1 and not fnd)
+    return r
+
+
+# ---------------------------------------------------------------------------------------------------------------------
+# T19  an operator that waits for its right operand becomes the next parent.  In parse(), every arm that places the current
+#      token with an assumed right operand (the next node id) records the token's id in the loop-carried state before doing so -
+#      that is how a prefix operator or bracket that follows finds its parent.  Sibling agreement over the arms (4 today).
+def t19_analyse(F, f):
+    top = f["hir"]
+    b = top.get("b") if top.get("k") == "Block" else None
+    if not isinstance(b, dict):
+        return [], 0
+    body = Body(f)
+    state = {}
+    for st in b.get("stmts") or []:
+        if st.get("k") == "Let":
+            for x in walk(st.get("pat") or {}):
+                if x.get("k") == "Binding" and "mut" in str(x.get("mode") or "").lower():
+                    state[x["lid"]] = x.get("name")
+    # helpers with a parameter that receives the right operand's id
+    role = {}
+    for g in F.fns.values():
+        if g["crate"] == f["crate"] and g["path"].rsplit("::", 1)[0] == f["path"].rsplit("::", 1)[0] and g["kind"] != "Closure":
+            for i, p in enumerate(g.get("params", [])):
+                if p.get("k") == "Binding" and p.get("name") == "right":
+                    role[g["path"]] = i
+    fnd, n = [], 0
+    for lp in walk(top):
+        if lp.get("k") != "Loop" or lp.get("src") != "ForLoop":
+            continue
+        ids = set()
+        for n_ in walk(lp):
+            if n_.get("k") == "Let" and n_.get("init") is not None:
+                i = peel(n_["init"])
+                if i.get("k") == "MethodCall" and i.get("m") == "len" and "ParseNode" in (i.get("recv_ty") or ""):
+                    ids |= set(x["lid"] for x in walk(n_.get("pat") or {}) if x.get("k") == "Binding")
+        if not ids:
+            continue
+        def is_id(e):
+            e = peel(e)
+            return e.get("k") == "Path" and e.get("res") == "local" and e.get("lid") in ids
+        def waits_for_right(a):
+            # Some(id + 1): the node that will be created next
+            a = peel(a)
+            if a.get("k") == "Path" and (a.get("def") or "").endswith("::None"):
+                return False
+            for o in body.origins(a):
+                pass
+            return any(x.get("k") == "Binary" and x.get("op") == "+" and (is_id(x["l"]) or is_id(x["r"])) for e_ in [a] + [d for l in [peel(a).get("lid")] if l is not None for d in body.defs.get(l, []) if isinstance(d, dict)] for x in walk(e_))
+        def records_id(stmt):
+            e = stmt.get("e") if stmt.get("k") in ("Semi", "Expr") else None
+            e = peel(e or {})
+            if e.get("k") != "Assign":
+                return False
+            l_ = peel(e["l"])
+            r_ = peel(e["r"])
+            return l_.get("k") == "Path" and l_.get("lid") in state and r_.get("k") == "Call" and (callee(r_) or "").endswith("::Some") and r_.get("args") and is_id(r_["args"][0])
+        def search(node, chain):
+            """yield (call, chain of (block, index of the statement containing the call))"""
+            if isinstance(node, dict):
+                if node.get("k") == "Call" and (callee(node) or "") in role:
+                    yield node, list(chain)
+                if node.get("k") == "Block" and isinstance(node.get("b"), dict):
+                    sts = node["b"].get("stmts") or []
+                    for i, st in enumerate(sts):
+                        yield from search(st, chain + [(sts, i)])
+                    if node["b"].get("expr") is not None:
+                        yield from search(node["b"]["expr"], chain + [(sts, len(sts))])
+                    return
+                for k_, v in node.items():
+                    if k_ != "b" and isinstance(v, (dict, list)):
+                        yield from search(v, chain)
+            elif isinstance(node, list):
+                for x in node:
+                    yield from search(x, chain)
+        for m in walk(lp):
+            if m.get("k") != "Match" or m.get("src") not in (None, "Normal") or len(m.get("arms", [])) < 8:
+                continue
+            for arm in m["arms"]:
+                for c, chain in search(arm["body"], []):
+                    args = call_args(c)
+                    ri = role[callee(c)]
+                    if ri >= len(args) or not waits_for_right(args[ri]):
+                        continue
+                    n += 1
+                    ok = any(records_id(st) for sts, i in chain for st in sts[:i])
+                    if not ok:
+                        fnd.append(("operator-without-next-parent:%s" % last(callee(c)), loc(c), last(callee(c))))
+    return fnd, n
+
+
+def rule_T19(ctx):
+    F = ctx.F
+    r = RuleResult("T19", "an operator waiting for its right operand becomes the next parent: every arm of parse() that places the current token with an assumed right operand first records the token's id in the loop-carried state")
+    total = 0
+    for f in sorted(F.fns.values(), key=lambda f: f["path"]):
+        if f["crate"] != "garnish_lang_compiler" or "::parse::" not in f["path"] or f["kind"] == "Closure":
+            continue
+        fnd, n = t19_analyse(F, f)
+        if n:
+            total += n
+            r.examine((f["path"],), True, {"fn": f["path"], "placements_with_assumed_right": n, "violations": len(fnd)})
+            r.examined += max(n - 1, 0)
+        for k, (inst, where, nm) in enumerate(fnd):
+            r.finding(f["path"], inst + ("#%d" % (k + 1) if k else ""), where, "the token is placed at %s (`%s`) with the next node assumed as its right operand, but unlike its sibling arms this one does not record the token's id as the next parent first: a prefix operator or bracket that follows is parented to whatever operator came before" % (where, nm))
+    r.floor("placements with an assumed right operand", total, 4)
+    for f in F.fns_in("gfixture::round3::t19::"):
+        if f["kind"] == "Closure" or not f.get("name", "").startswith(("ctl_", "ok_")):
+            continue
+        fnd, n = t19_analyse(F, f)
+        if f["name"].startswith("ctl_"):
+            r.control(f["name"], bool(fnd))
+        else:
+            r.neg_control(f["name"], n >= 1 and not fnd)
+    return r
